@@ -73,6 +73,7 @@ class SignalSetup(Contract):
                 loop_idx = i
         if loop_idx is None:
             raise ExtractionError('main: simulation loop (while ... !Display::abort) not found')
+        localdecls = {x['id']: x for s_ in stmts for x in _walk(s_) if x.get('kind') == 'VarDecl' and x.get('id')}
         installs = []       # (statement index, api, handler name, flags or None)
         flag_stores = []    # constant values stored into some .sa_flags
         handler_stores = [] # names stored into .sa_handler
@@ -84,7 +85,17 @@ class SignalSetup(Contract):
                     signo = _int_const(args[0]) if args else None
                     hname = None
                     if api != 'sigaction' and len(args) > 1:
-                        hs = [(x.get('referencedDecl') or {}).get('name') for x in _walk(args[1]) if x.get('kind') == 'DeclRefExpr']
+                        refs = [x.get('referencedDecl') or {} for x in _walk(args[1]) if x.get('kind') == 'DeclRefExpr']
+                        hs = []
+                        for rd in refs:
+                            if rd.get('kind') == 'VarDecl' and rd.get('id') in localdecls:
+                                # handler passed through a local: follow its initialiser, provided the local cannot be re-bound
+                                vd = localdecls[rd['id']]
+                                if 'const' not in vd.get('type', {}).get('qualType', ''):
+                                    raise ExtractionError(f'main: signal handler passed through the non-const local {vd.get("name")}')
+                                hs += [(y.get('referencedDecl') or {}).get('name') for y in _walk(vd) if y.get('kind') == 'DeclRefExpr']
+                            else:
+                                hs.append(rd.get('name'))
                         hname = hs[0] if hs else (_int_const(args[1]) if _int_const(args[1]) is not None else '?')
                     installs.append((i, api, signo, hname))
                 if n.get('kind') == 'BinaryOperator' and n.get('opcode') in ('=', '|='):
